@@ -147,6 +147,29 @@ pub fn run(ctx: &mut Ctx) {
     for (t, partials) in late_writers() {
         one(ctx, "late", &t, &partials, &Object::new());
     }
+    // the error that carries a failure out of a construct may be decorated with run-time values (the
+    // value a `case` switched on, the name of a partial): long values with multi-byte characters at
+    // byte 128 / 256
+    {
+        let titles: Vec<String> = vec![
+            format!("{}\u{e9}\u{65e5}\u{672c}{}", "a".repeat(127), "\u{e9}".repeat(18)),
+            "\u{65e5}\u{672c}\u{8a9e}\u{306e}\u{3068}\u{3066}\u{3082}\u{9577}\u{3044}\u{984c}\u{540d}".repeat(6),
+            format!("{}\u{1f600}x", "b".repeat(253)),
+            "short".to_string(),
+        ];
+        for title in titles {
+            let mut d = Object::new();
+            d.insert("title".into(), liquid_core::model::Value::scalar(title.clone()));
+            d.insert("kind".into(), liquid_core::model::Value::scalar("k"));
+            let case = Node::Case { target: var("title"), arms: vec![(vec![lit_s("draft")], vec![text("(draft)")])], els: Some(vec![text("["), out(var("kind")), text("] "), out(var("title")), text("!")]), comma: true };
+            one(ctx, "late-context", &[text("<h1>"), case.clone(), text("</h1>")], &[], &d);
+            let f = Node::For { x: "i".into(), rng: RangeE::Counted(lit_i(1), lit_i(2)), limit: None, offset: None, rev: false, body: vec![case, text(";")], els: None };
+            one(ctx, "late-context", &[f, text("end")], &[], &d);
+            let ps: Vec<PartialDef> = vec![(title.clone(), Ok(vec![text("p:"), out(var("kind")), text(":"), out(var("kind"))]))];
+            one(ctx, "late-context", &[text("a"), Node::Include(var("title"), vec![]), text("b")], &ps, &d);
+            one(ctx, "late-context", &[text("a"), Node::Render(var("title"), RForm::Plain, vec![("kind".into(), lit_s("r"))]), text("b")], &ps, &d);
+        }
+    }
     let n = if ctx.tier_thorough { 50_000 } else { 2_500 };
     let mut g = Gen::new(ctx.seed ^ 0xC10);
     g.allow_partials = true;
